@@ -14,6 +14,14 @@ func ret1(st *State, v Value) []Outcome { return []Outcome{{st: st, ret: v}} }
 func (ex *Exec) callBuiltin(st *State, fv FuncV, args []Value, call *ssa.CallCommon) []Outcome {
 	tt := ex.tt
 	name := strings.TrimPrefix(fv.builtin, "builtin:")
+	if fv.builtin == "ctxcancel" {
+		ch := fv.env[0].(ChanV)
+		o := st.mut(ch.obj)
+		cd := *o.val.(*ChanData)
+		cd.closed = true
+		o.val = &cd
+		return ret1(st, nil)
+	}
 	switch name {
 	case "len":
 		switch x := args[0].(type) {
